@@ -346,6 +346,12 @@ func sanitize(s string) string {
 	}, s)
 }
 
+// IsRapidUnwind reports whether a recovered value is rapid's own unwinding (Fatalf, Skip, invalid data) rather than a
+// panic of the code under test. A recover() in a check must re-panic such values and route everything else through Violation.
+func IsRapidUnwind(x any) bool {
+	return strings.HasPrefix(fmt.Sprintf("%T", x), "rapid.")
+}
+
 // SaveReplay writes v as JSON under the replay dir and returns its path (for non-rapid checks).
 func (r *Rec) SaveReplay(name string, v any) string {
 	dir := os.Getenv("VERIF_REPLAY_DIR")
